@@ -351,6 +351,11 @@ class CallMixin:
             a, b = [self.as_int(self.ev(x, st, cx)) for x in node.args]
             return SInt(z3.If((a <= b) if name == "min" else (a >= b), a, b))
         # constructors
+        if name in getattr(uni, "str_classes", {}):
+            # a str subclass whose value is one of its constructor arguments (lark Token(type, value)): modelled as
+            # that string (assumed; listed by the sidecar)
+            args, kwargs = self.args_of(node, st, cx)
+            return SStr(self.as_str(args[uni.str_classes[name]]))
         if name in uni.val_classes or any(name in uni.subclasses(v) for v in uni.val_classes):
             return self.construct_val(name, node, st, cx)
         if name in uni.obj_classes:
